@@ -485,7 +485,7 @@ def _rebind(mod):
     for nm in ('zeros', 'asarray'):
         if d.get(nm) is getattr(_np, nm):
             d[nm] = getattr(npx, nm)
-    for nm in ('coo_matrix', 'csc_matrix', 'csr_matrix', 'dok_matrix', 'isspmatrix', 'vstack', 'hstack'):
+    for nm in ('coo_matrix', 'csc_matrix', 'csr_matrix', 'dok_matrix', 'lil_matrix', 'bsr_matrix', 'isspmatrix', 'vstack', 'hstack'):
         if nm in d and not getattr(d[nm], '_is_sx_model', False) and getattr(d[nm], '__module__', '').startswith('scipy'):
             d[nm] = getattr(spm, nm)
 
